@@ -59,6 +59,8 @@
         be a content item of the assigned Variant itself: node = node.toElement().content[k]); the alphabet of operations
         includes VSubAssign i k j (a content item assigned in place from another Variant - a copy, an ancestor, a
         descendant; j = i is outside the alphabet: the code builds a cycle there, see checks/C16.py level_note)
+        xml_text_assigned_to_content_item (a String assigned to a content item through its element, run as VText tmp;
+        VSubAssign i k tmp; VDel tmp: only slot i changes - no copy of the element or of the old text item does)
 
         A reference obtained from the non-const toElement() and KEPT by the caller
         (`Element& e = v.toElement(); Variant w(v); e.type = ...;`):
@@ -414,6 +416,32 @@ Example ex_item_assigned_from_ancestor :
   vabs (vrun (h ++ [VSub 2 0 0; VSubAssign 2 0 0; VDel 0; VDel 1])) =
     [None; None; Some (N 0 0 [97] [] [N 0 0 [97] [] [N 0 0 [97] [] [N 0 0 [98] [] []]]])] /\
   vabs (vrun (h ++ [VSubAssign 0 0 0])) = vabs (vrun h).
+Proof. repeat split; vm_compute; reflexivity. Qed.
+
+(* a String assigned to a content item through its element (`Xml::Element c = e; c.content.front() = "new";`, harness op
+   vsubsettext i k t = VText tmp t; VSubAssign i k tmp; VDel tmp with a temporary slot): slot i holds its element with the
+   k-th item replaced by the text, every other slot - every copy of the element, every copy of the old item - holds what
+   it held, the counts stay exact (round 6: Variant::operator=(const String&) on a text block shared with copies) *)
+Theorem xml_text_assigned_to_content_item : forall ops i k t tmp l c nm at_ ct,
+  tmp <> i -> sget (vabs (vrun ops)) i = Some (N l c nm at_ ct) -> (k < length ct)%nat ->
+  let s3 := vrun (ops ++ [VText tmp t; VSubAssign i k tmp; VDel tmp]) in
+  sget (vabs s3) i = Some (N l c nm at_ (upd_nth k (fun _ => T t) ct)) /\
+  sget (vabs s3) tmp = None /\
+  (forall j, j <> i -> j <> tmp -> sget (vabs s3) j = sget (vabs (vrun ops)) j) /\
+  Inv s3.
+Proof. exact text_assigned_to_content_item. Qed.
+Print Assumptions xml_text_assigned_to_content_item.
+
+(* a(t) in slot 0, copied as a Variant (slot 2: the element block is shared) and as an Element (slot 4: the items share
+   their blocks); the text of the copy in slot 2 := u, then the text of the source := w: each write is seen by its slot alone;
+   a text Variant and its copy: the copy := b, the source keeps a *)
+Example ex_text_of_copy_assigned :
+  let h := [VElem 0 [97]; VText 1 [116]; VChild 0 1; VDel 1; VCopy 2 0; VElCopy 4 0] in
+  vabs (vrun (h ++ [VText 6 [117]; VSubAssign 2 0 6; VDel 6])) =
+    [Some (N 0 0 [97] [] [T [116]]); None; Some (N 0 0 [97] [] [T [117]]); None; Some (N 0 0 [97] [] [T [116]]); None; None] /\
+  vabs (vrun (h ++ [VText 6 [117]; VSubAssign 2 0 6; VDel 6; VText 6 [119]; VSubAssign 0 0 6; VDel 6])) =
+    [Some (N 0 0 [97] [] [T [119]]); None; Some (N 0 0 [97] [] [T [117]]); None; Some (N 0 0 [97] [] [T [116]]); None; None] /\
+  vabs (vrun [VText 0 [97]; VCopy 1 0; VSetText 1 [98]]) = [Some (T [97]); Some (T [98])].
 Proof. repeat split; vm_compute; reflexivity. Qed.
 
 (* ---- a reference obtained from toElement() and kept by the caller -------------------------- *)
